@@ -58,7 +58,7 @@ Proof.
   destruct (existsb (N.leb x) (counter_rates u (id_program i) k)) eqn:Ee.
   - apply existsb_leb_true in Ee as [r [Hin Hle]]. apply in_counter_rates in Hin.
     split; [exact Es|]. split; [eauto|]. auto.
-  - destruct (nonempty (stack_rates u (id_program i) k)); discriminate.
+  - destruct (nonempty (stack_rates u (id_program i) k) && (x <=? rate (new_config u) (id_program i) k)%N); discriminate.
 Qed.
 
 Lemma check_stack_nil u files x i k v :
@@ -71,7 +71,7 @@ Proof.
   destruct (existsb (N.leb x) (stack_rates u (id_program i) (stack_title k))) eqn:Ee.
   - apply existsb_leb_true in Ee as [r [Hin Hle]]. apply in_stack_rates in Hin.
     split; [exact Es|]. split; [eauto|]. auto.
-  - destruct (nonempty (counter_rates u (id_program i) (stack_title k))); discriminate.
+  - destruct (nonempty (counter_rates u (id_program i) (stack_title k)) && (x <=? rate (new_config u) (id_program i) (stack_title k))%N); discriminate.
 Qed.
 
 Definition prog_ok (u : upload_cfg) (files : list cfile) (x : N) (p : ident * body) : Prop :=
@@ -120,12 +120,12 @@ Proof.
     { unfold must_counter. rewrite (proj2 (approved_counterb_spec u _ k) He). cbn [andb].
       apply forallb_leb. intros r Hr. apply Hall, in_counter_rates, Hr. }
     rewrite Hm in Hkv. destruct (aget beq k (fst b)) as [v|]; [eauto|].
-    destruct (nonempty (stack_rates u (id_program (f_ident f)) k)); discriminate.
+    destruct (nonempty (stack_rates u (id_program (f_ident f)) k) && negb (x <=? rate (new_config u) (id_program (f_ident f)) k)%N); discriminate.
   - assert (Hm : must_stack u x (id_program (f_ident f)) k = true).
     { unfold must_stack. rewrite (proj2 (approved_stackb_spec u _ k) He). cbn [andb].
       apply forallb_leb. intros r Hr. apply Hall, in_stack_rates, Hr. }
     rewrite Hm in Hkv. destruct (aget beq k (snd b)) as [v|]; [eauto|].
-    destruct (nonempty (counter_rates u (id_program (f_ident f)) (stack_title k))); discriminate.
+    destruct (nonempty (counter_rates u (id_program (f_ident f)) (stack_title k)) && negb (x <=? rate (new_config u) (id_program (f_ident f)) (stack_title k))%N); discriminate.
 Qed.
 
 (* The meaning of an accepted report. *)
